@@ -29,6 +29,10 @@ import dateutil.rrule
 from icalendar.cal import Calendar, Component, component_factory
 from icalendar.prop import TypesFactory, vCategory, vDatetime, vDDDTypes, vText
 
+if not hasattr(component_factory, "__getitem__"):
+    # icalendar >= 6.2: component_factory is a module, not an instance
+    component_factory = component_factory.ComponentFactory()
+
 from xandikos.store import File, Filter, InvalidFileContents
 
 from . import collation as _mod_collation
